@@ -90,6 +90,7 @@ func (c *mChild) emit(ctx context.Context, send chan<- mocrelay.ServerMsg, m moc
 func (c *mChild) ServeNostr(ctx context.Context, send chan<- mocrelay.ServerMsg, recv <-chan mocrelay.ClientMsg) error {
 	var wg sync.WaitGroup
 	defer wg.Wait()
+	mine := map[string]*mGen{} // this session's latest generation per subscription id
 	evChain := map[string]chan struct{}{}
 	evSeen := map[string]int{}
 	cntChain := map[string]chan struct{}{}
@@ -111,6 +112,7 @@ func (c *mChild) ServeNostr(ctx context.Context, send chan<- mocrelay.ServerMsg,
 				if g == nil {
 					continue
 				}
+				mine[g.sub] = g
 				wg.Add(1)
 				go func() {
 					defer wg.Done()
@@ -152,11 +154,7 @@ func (c *mChild) ServeNostr(ctx context.Context, send chan<- mocrelay.ServerMsg,
 					}
 				}()
 			case *mocrelay.ClientCloseMsg:
-				c.w.mu.Lock()
-				gs := c.w.bySub[m.SubscriptionID]
-				c.w.mu.Unlock()
-				if len(gs) > 0 {
-					g := gs[len(gs)-1]
+				if g := mine[m.SubscriptionID]; g != nil {
 					g.mu.Lock()
 					if g.closeRecv[c.idx] == 0 {
 						g.closeRecv[c.idx] = at
